@@ -120,6 +120,12 @@ pub(crate) enum InnerNotificationEvent {
     NotificationStreamClosed {
         /// Peer ID.
         peer: PeerId,
+
+        /// Identifier of the closed notification stream, see `NotificationSink`.
+        ///
+        /// `None` if reported by `NotificationProtocol` itself, in which case it refers to the
+        /// stream that is currently open to `peer`.
+        stream_id: Option<usize>,
     },
 
     /// Failed to open notification stream.
